@@ -38,6 +38,7 @@ ALPHABET = [0.0, A, B, -A, A]  # a appears twice: repeated values are part of th
 
 def BOUNDS(tier):
     return {"alphabet": ALPHABET, "depth": 4 if tier == "thorough" else 3, "steps": "1..2 (every split)", "failure_positions": "every position", "failure_kinds": ["nan", "never", "real"],
+            "material_points": "two points in one array x all pairs of stretch histories (4 stretches, depth 3) x layouts (2,1)/(1,2)",
             "models": "1 cell, 2 cells (thorough) homogeneous; clamped 2x2x1 block (plasticity, yielding and elastic points in one state)"}
 
 
@@ -55,6 +56,13 @@ def plan(tier, seed):
     # inhomogeneous plasticity (clamped end faces: yielding and elastic quadrature points in the same evaluation)
     for first in range(len(ALPHABET)):
         cases.append(dict(key=f"history/clamped/plasticity/first={first}", kind="history", model="clamped", item="plasticity", first=first, depth=depth, seed=seed, cost=40))
+    # inhomogeneous pseudo-elasticity (the points reach their own energy maxima in different substeps: tension / compression)
+    for item in ("OgdenRoxburgh", "tt-OgdenRoxburgh"):
+        for first in range(len(ALPHABET)):
+            cases.append(dict(key=f"history/clamped/{item}/first={first}", kind="history", model="clamped", item=item, first=first, depth=depth, seed=seed, cost=40))
+    for item in ITEMS[1:]:
+        for first in range(len(STRETCH) ** 2):
+            cases.append(dict(key=f"points/{item}/first={first}", kind="points", item=item, first=first, depth=3, seed=seed, cost=3))
     cases.append(dict(key="curve-records", kind="curve", seed=seed, depth=depth, cost=15))
     for ramped in RAMPED[1:]:
         cases.append(dict(key=f"ramped/{ramped}", kind="ramped", ramped=ramped, seed=seed, depth=3, cost=10))
@@ -490,5 +498,99 @@ def run_curve(case):
     return c.result(dict(case=case["key"]))
 
 
+STRETCH = [1.0, 1.25, 1.6, 0.8]
+
+
+def run_points(case):
+    """history variables are per quadrature point: two material points evaluated in ONE array (as (q=2, c=1) and as
+    (q=1, c=2)), every pair of per-point stretch histories over the stretch alphabet up to the depth (the vector alphabet is
+    the square of the scalar one, so one point re-loads below its own maximum while the other is on its primary path and vice
+    versa) -- stress, tangent and updated state of each point must equal those of the same point evaluated alone with its own
+    history (differential oracle on the real material, built from the shared prefix tree), and for the pseudo-elastic
+    models the stored value is the per-point running maximum and the primary path is the base material"""
+    import felupe as fem
+    import felupe.constitution as C
+
+    warnings.simplefilter("ignore")
+    c = Ctx(case["key"])
+    item = case["item"]
+    _, _, _, um, base, _, _, _, _ = build("1cell", item)
+    nsv = tuple(um.x[-1].shape)
+    k = len(STRETCH)
+    sh = 0.05 + 0.02 * zoo.offs(case["seed"], 3)
+
+    def defgrad(lams, shape):
+        lam = np.asarray(lams, float).reshape(shape)
+        F = np.zeros((3, 3) + shape)
+        F[0, 0] = lam
+        F[1, 1] = F[2, 2] = 1 / np.sqrt(lam)
+        F[0, 1] = sh * (lam - 1.0)
+        return F
+
+    single = {(): np.zeros(nsv + (1, 1))}  # scalar history -> state of one point evaluated alone
+    sres = {}
+
+    def single_eval(h):
+        if h not in sres:
+            F = defgrad([STRETCH[h[-1]]], (1, 1))
+            P, sv = um.gradient([F, single[h[:-1]].copy()])[:2]
+            A = um.hessian([F, single[h[:-1]].copy()])[0]
+            single[h] = np.array(sv, copy=True)
+            sres[h] = (np.array(P, copy=True), np.array(A, copy=True))
+        return sres[h] + (single[h],)
+
+    for n in range(1, case["depth"] + 1):
+        for h in itertools.product(range(k), repeat=n):
+            single_eval(h)
+    first = case["first"]
+    for shape in ((2, 1), (1, 2)):
+        state = {(): np.zeros(nsv + shape)}
+        for n in range(1, case["depth"] + 1):
+            for tail in itertools.product(range(k * k), repeat=n - 1):
+                hist = (first,) + tail
+                ha, hb = tuple(v // k for v in hist), tuple(v % k for v in hist)
+                F = defgrad([STRETCH[ha[-1]], STRETCH[hb[-1]]], shape)
+                sv0 = state[hist[:-1]]
+                keep = sv0.copy()
+                P, sv = um.gradient([F, sv0])[:2]
+                A = um.hessian([F, sv0])[0]
+                state[hist] = np.array(sv, copy=True)
+                c.trans += 1
+                c.traces += 1
+                sub = f"layout={shape}/hist={[(STRETCH[a], STRETCH[b]) for a, b in zip(ha, hb)]}"
+                if not np.array_equal(sv0, keep):
+                    c.bad(sub + "/input-state", "the committed state passed in must not be changed by an evaluation", "changed", "unchanged")
+                for pi, hp in enumerate((ha, hb)):
+                    Ps, As, svs = single_eval(hp)
+                    ix = (pi, 0) if shape == (2, 1) else (0, pi)
+                    scale = max(np.abs(Ps).max(), 1e-3)
+                    e = np.abs(np.asarray(P)[(Ellipsis,) + ix] - Ps[..., 0, 0]).max() / scale
+                    if e > 1e-10:
+                        c.bad(sub + f"/point{pi}/stress", "stress of a point in a two-point array vs the same point evaluated alone with its own history", float(e), 0, 1e-10)
+                    Aa = np.broadcast_to(np.asarray(A), np.asarray(A).shape[:4] + shape)[(Ellipsis,) + ix]
+                    e = np.abs(Aa - np.broadcast_to(As, As.shape[:4] + (1, 1))[..., 0, 0]).max() / max(np.abs(As).max(), 1e-3)
+                    if e > 1e-10:
+                        c.bad(sub + f"/point{pi}/tangent", "tangent of a point in a two-point array vs the same point evaluated alone", float(e), 0, 1e-10)
+                    e = np.abs(np.asarray(sv)[(Ellipsis,) + ix] - svs[..., 0, 0]).max() / max(np.abs(svs).max(), 1e-3)
+                    if e > 1e-10:
+                        c.bad(sub + f"/point{pi}/state", "updated state of a point in a two-point array vs the same point evaluated alone", float(e), 0, 1e-10)
+                if item in ("OgdenRoxburgh", "tt-OgdenRoxburgh"):
+                    Ws = [np.asarray(energy_of(item, um, base, defgrad([STRETCH[a], STRETCH[b]], shape)), float) for a, b in zip(ha, hb)]
+                    rmax = np.maximum.reduce(Ws)
+                    e = np.abs(np.asarray(sv)[0] - rmax).max() / max(rmax.max(), 1e-9)
+                    if e > 1e-10:
+                        c.bad(sub + "/wmax", "stored maximum energy must be the per-point running maximum over the history", float(e), 0, 1e-10)
+                    prim = Ws[-1] >= rmax - 1e-14
+                    if prim.any():
+                        Pb = np.asarray(base.gradient([F, None])[0])
+                        e = np.abs((np.asarray(P) - Pb)[..., prim]).max() / max(np.abs(Pb).max(), 1e-9)
+                        if e > 1e-10:
+                            c.bad(sub + "/primary", "points on their primary loading path respond like the base material", float(e), 0, 1e-10)
+                        c.outcomes.add(f"primary-points:{int(prim.sum())}")
+                c.seen[(shape, hist)] = 1
+                c.nontrivial.append(sub)
+    return c.result(dict(case=case["key"], scalar_histories=len(sres), stretches=STRETCH))
+
+
 def run(case):
-    return {"history": run_history, "ramped": run_ramped, "curve": run_curve}[case["kind"]](case)
+    return {"points": run_points, "history": run_history, "ramped": run_ramped, "curve": run_curve}[case["kind"]](case)
